@@ -397,10 +397,15 @@ class Check:
             for v in self.extra():
                 violations.append(v)
             broken = [o.name for o in obligations if not o.ok]
+            known_sigs = {k['signature'] for k in load_known()
+                          if k.get('property') == self.pid and k.get('status') == 'known'}
+
+            def unknown_fails():
+                return [x for x in oracle_fail if x[2] not in known_sigs]
 
             # search when something broke
             searched = 0
-            if (broken or disagreements) and not oracle_fail:
+            if (broken or disagreements) and not unknown_fails():
                 log('[%s] obligation/correspondence broke; searching for a failing input' % self.pid)
                 around = [d[0] for d in disagreements[:20]]
                 for c in self.search_cases(around):
@@ -408,7 +413,7 @@ class Check:
                     searched += 1
                     for sig, what in self.oracle(c, obs):
                         oracle_fail.append((c, obs, sig, what))
-                    if len(oracle_fail) >= 5:
+                    if len(unknown_fails()) >= 5:
                         break
             self.stats['search_cases'] = searched
 
@@ -426,7 +431,8 @@ class Check:
                     pass
                 violations.append(Violation(sig, what, case=c, observed=obs, kind='oracle',
                                             broken=broken or None))
-            if not oracle_fail:
+            if not unknown_fails():
+                # a recorded known finding must not mask a broken correspondence or obligation
                 if disagreements:
                     c, obs, mo, d = disagreements[0]
                     violations.append(Violation(
